@@ -392,6 +392,19 @@ fn pool_alphabet(n: &Node, cfg: &AlphaCfg) -> Vec<(String, Transaction, bool)> {
                     }
                 }
             }
+            if cfg.pool_spellings {
+                // two coins of the same denomination "deposited" under the long-form name with equal sides: names no pool at all
+                let same = coins_of(m, k.right(), 2);
+                if same.len() == 2 && k.right() != Denom::Mel {
+                    if let Some(carrier) = coins_of(m, Denom::Mel, 8).into_iter().last() {
+                        let mut data = vec![0u8; 32];
+                        data.extend_from_slice(&stdcode::serialize(&(k.right(), k.right())).unwrap());
+                        let ins = vec![same[0].0, same[1].0, carrier.0];
+                        let outs = vec![out_t(same[0].1.coin_data.value.0, k.right()), out_t(same[1].1.coin_data.value.0, k.right()), out_t(carrier.1.coin_data.value.0, Denom::Mel)];
+                        out.push((format!("deposit-equal-sides[{}/{}]", dn(k.right()), dn(k.right())), tx_t(TxKind::LiqDeposit, ins, outs, 0, data), true));
+                    }
+                }
+            }
             // a second, small deposit from *other* coins, so that several deposits can share a block
             let l2 = coins_of(m, k.left(), 2);
             let r2 = coins_of(m, k.right(), 2);
